@@ -188,3 +188,40 @@ Proof.
   - rewrite Hfr. eapply peq_trans; [exact A1|]. now apply peq_sym.
   - exact A1.
 Qed.
+
+(* ---- vertex lists (polyline / spline arguments): to_absolute_list ---- *)
+(* the same logical vertices phrased for relative mode: each as the offset from the logical position before it *)
+Fixpoint offsets (L : point) (vs : list point) : list point :=
+  match vs with
+  | [] => []
+  | v :: vs' => offset L v :: offsets (replace (resolve L) v) vs'
+  end.
+
+Lemma peq_padd_offset c L v : peq c L -> peq (padd c (resolve (offset L v))) (replace (resolve L) v).
+Proof.
+  intros (Hx & Hy & Hz). unfold peq, padd, offset, off1, replace, resolve, lift2, rep1. cbn [px py pz res1].
+  destruct (px v) as [vx|], (py v) as [vy|], (pz v) as [vz|]; cbn [option_map res1]; rewrite ?qadd_eq, ?qsub_eq, ?Hx, ?Hy, ?Hz;
+    repeat split; ring.
+Qed.
+
+Lemma peq_replace c L v : peq c L -> peq (replace c v) (replace (resolve L) v).
+Proof.
+  intros (Hx & Hy & Hz). unfold peq, replace, resolve, rep1. cbn [px py pz res1].
+  destruct (px v), (py v), (pz v); cbn [res1]; repeat split; try reflexivity; assumption.
+Qed.
+
+(* in both modes to_absolute_list yields, vertex by vertex, the logical positions of the path *)
+Theorem abs_list_agree : forall vs ca cr L, peq ca L -> peq cr L ->
+  Forall2 peq (abs_list true cr (offsets L vs)) (abs_list false ca vs).
+Proof.
+  induction vs as [|v vs IH]; intros ca cr L Ha Hr; cbn [offsets abs_list]; constructor.
+  - eapply peq_trans; [apply (peq_padd_offset cr L v Hr)|]. apply peq_sym. now apply peq_replace.
+  - apply (IH _ _ (replace (resolve L) v)); [now apply peq_replace|now apply peq_padd_offset].
+Qed.
+
+Corollary to_absolute_list_agree sa sr vs : same_but_mode sa sr ->
+  Forall2 peq (to_absolute_list sr (offsets (pos sa) vs)) (to_absolute_list sa vs).
+Proof.
+  intros (Ha & Hr & Hp & _). unfold to_absolute_list. rewrite Ha, Hr, Hp.
+  apply abs_list_agree; unfold peq, resolve; cbn; repeat split; reflexivity.
+Qed.
